@@ -67,4 +67,6 @@ func (a *AggOpPlanner) finalize(ctx *shared.PlannerContext, stream *aggOpStream)
 type aggOpStream struct {
 	labels map[string]string
 	values []float64
+	// stamps[i]: timestamp of the entry whose value bucket i currently holds (first/last_over_time only)
+	stamps []int64
 }
